@@ -27,16 +27,23 @@ BATCH = 20000
 _ARM_ATTR = ("+v8.2a,+vfp4,+neon,+crc,+crypto,+dsp,+mp,+virtualization,+trustzone,+hwdiv,+hwdiv-arm,+fp16,"
              "+fullfp16,+dotprod,+ras")
 _A64_ATTR = "+v8.5a,+fp-armv8,+neon,+crc,+crypto,+lse,+fullfp16,+rcpc,+dotprod,+ras,+rdm,+sve"
-# family -> (llvm-mc triple, llvm-objdump extra args, header lines of the .s file)
+# family -> list of reference profiles (llvm-mc triple, llvm-objdump extra args, header lines of the .s file).
+# A sample is valid for the reference when ANY profile decodes it (ISA revisions removed / added encodings).
+_ARM7_ATTR = "+vfp4,+neon,+mp,+virtualization,+trustzone,+hwdiv,+hwdiv-arm,+fp16,+dsp"
 REF = {
-    "x86:32": ("i386", [], []),
-    "x86:64": ("x86_64", [], []),
-    "x86:16": ("i386-unknown-unknown-code16", ["--triple=i386-unknown-unknown-code16"], [".code16"]),
-    "arm": ("armv8a", ["--triple=armv8a", "--mattr=" + _ARM_ATTR], [".arm"]),
-    "armt": ("thumbv8a", ["--triple=thumbv8a", "--mattr=" + _ARM_ATTR], [".thumb"]),
-    "aarch64": ("aarch64", ["--mattr=" + _A64_ATTR], []),
-    "mips32": ("mips", ["--mattr=+mips32r2"], []),
-    "ppc32": ("powerpc", [], []),
+    "x86:32": [("i386", [], [])],
+    "x86:64": [("x86_64", [], [])],
+    "x86:16": [("i386-unknown-unknown-code16", ["--triple=i386-unknown-unknown-code16"], [".code16"])],
+    "arm": [("armv8a", ["--triple=armv8a", "--mattr=" + _ARM_ATTR], [".arm"]),
+            ("armv7a", ["--triple=armv7a", "--mattr=" + _ARM7_ATTR], [".arm"]),
+            ("armv5te", ["--triple=armv5te", "--mattr=+vfp2"], [".arm"])],
+    "armt": [("thumbv8a", ["--triple=thumbv8a", "--mattr=" + _ARM_ATTR], [".thumb"]),
+             ("thumbv7a", ["--triple=thumbv7a", "--mattr=" + _ARM7_ATTR], [".thumb"])],
+    "aarch64": [("aarch64", ["--mattr=" + _A64_ATTR], [])],
+    "mips32": [("mips", ["--mattr=+mips32r2,+fp64,+dsp,+dspr2"], []),
+               ("mips", ["--mattr=+mips32r2"], []),
+               ("mips", ["--mattr=+mips32r6"], [])],
+    "ppc32": [("powerpc", ["--mcpu=future"], []), ("powerpc", ["--mcpu=e500"], []), ("powerpc", ["--mcpu=a2"], [])],
 }
 GNU_OPT = {"x86:32": ["-M", "i386"], "x86:64": ["-M", "x86-64"], "x86:16": ["-M", "i8086"]}
 
@@ -57,9 +64,8 @@ def slot_bytes(arch, data):
     return logical + b"\x00" * (n - len(logical))
 
 
-def emit(arch, slots):
-    key = refkey(arch)
-    lines = [".text"] + REF[key][2]
+def emit(arch, slots, header):
+    lines = [".text"] + header
     for i, sb in enumerate(slots):
         if arch.family in ("arm", "aarch64"):
             body = "\n".join(" .inst 0x%s" % sb[j:j + 4].hex() for j in range(0, len(sb) - len(sb) % 4, 4))
@@ -96,29 +102,42 @@ class RefError(Exception):
     pass
 
 
+def _run(cmd):
+    p = subprocess.run(cmd, stdout=subprocess.PIPE, stderr=subprocess.PIPE)
+    if p.returncode != 0:
+        raise RefError("%s failed: %s" % (cmd[0], p.stderr.decode("utf-8", "replace")[:500]))
+    return p.stdout.decode("utf-8", "replace")
+
+
 def run_reference(arch, slots, workdir, want_gnu=True):
-    """-> (llvm {slot: (valid, len, text)}, gnu {...} or None)"""
+    """-> (llvm {slot: (valid, len, text)}, gnu {...} or None).  Profiles after the first are only asked about the
+    slots every earlier profile rejected."""
     key = refkey(arch)
-    triple, od_args, _hdr = REF[key]
     src = os.path.join(workdir, "b.s")
     obj = os.path.join(workdir, "b.o")
-    with open(src, "w") as f:
-        f.write(emit(arch, slots))
-    p = subprocess.run(["llvm-mc", "-triple=" + triple, "-filetype=obj", "-o", obj, src],
-                       stdout=subprocess.PIPE, stderr=subprocess.PIPE)
-    if p.returncode != 0:
-        raise RefError("llvm-mc failed: %s" % p.stderr.decode("utf-8", "replace")[:500])
-    p = subprocess.run(["llvm-objdump", "-d", "-z"] + od_args + [obj], stdout=subprocess.PIPE, stderr=subprocess.PIPE)
-    if p.returncode != 0:
-        raise RefError("llvm-objdump failed: %s" % p.stderr.decode("utf-8", "replace")[:500])
-    llvm = parse_listing(p.stdout.decode("utf-8", "replace"), len(slots), ("<unknown>",))
+    llvm = {}
     gnu = None
-    if want_gnu and key in GNU_OPT:
-        p = subprocess.run(["objdump", "-d", "-z", "--insn-width=16"] + GNU_OPT[key] + [obj],
-                           stdout=subprocess.PIPE, stderr=subprocess.PIPE)
-        if p.returncode != 0:
-            raise RefError("objdump failed: %s" % p.stderr.decode("utf-8", "replace")[:500])
-        gnu = parse_listing(p.stdout.decode("utf-8", "replace"), len(slots), ("(bad)",))
+    pending = list(range(len(slots)))
+    for pi, (triple, od_args, hdr) in enumerate(REF[key]):
+        if not pending:
+            break
+        with open(src, "w") as f:
+            f.write(emit(arch, [slots[i] for i in pending], hdr))
+        _run(["llvm-mc", "-triple=" + triple, "-filetype=obj", "-o", obj, src])
+        part = parse_listing(_run(["llvm-objdump", "-d", "-z"] + od_args + [obj]), len(pending), ("<unknown>",))
+        if len(part) != len(pending):
+            raise RefError("llvm-objdump listed %d of %d slots" % (len(part), len(pending)))
+        if pi == 0 and want_gnu and key in GNU_OPT:
+            gnu = parse_listing(_run(["objdump", "-d", "-z", "--insn-width=16"] + GNU_OPT[key] + [obj]),
+                                len(pending), ("(bad)",))
+        still = []
+        for j, i in enumerate(pending):
+            v = part[j]
+            if v[0] or i not in llvm:
+                llvm[i] = v
+            if not v[0]:
+                still.append(i)
+        pending = still
     return llvm, gnu
 
 
